@@ -264,6 +264,10 @@ namespace Pistache::Http
 
             auto* response = static_cast<Response*>(message);
 
+            // the version cannot be told before all of its bytes have arrived
+            if (cursor.remaining() < strlen("HTTP/1.1"))
+                return State::Again;
+
             if (match_raw("HTTP/1.1", strlen("HTTP/1.1"), cursor))
             {
                 // response->version = Version::Http11;
